@@ -48,9 +48,11 @@ def looked_up(title: str, ns):
     return out
 
 
-PREFIX = {10: "Template:", 828: "Module:"}
-LOWER = {10: "template:", 828: "module:"}
-ALIAS = {10: "T:", 828: "MOD:"}
+# namespace 4 is the one whose local name ("Wiktionary") differs from its canonical key ("Project")
+PREFIX = {10: "Template:", 828: "Module:", 4: "Wiktionary:"}
+LOWER = {10: "template:", 828: "module:", 4: "wiktionary:"}
+ALIAS = {10: "T:", 828: "MOD:", 4: "WT:"}
+CANON = {10: "Template:", 828: "Module:", 4: "Project:"}
 
 
 def _found(stored_title: str, lookup: str, ns) -> bool:
